@@ -26,7 +26,7 @@ def user_or_system_type(ctx, name="type"):
     return t
 
 
-def o1_origin(ctx, lx, ld, ack_to, tick_ms, role="net"):
+def o1_origin(ctx, lx, ld, ack_to, tick_ms, role="net", multicast=True):
     from circuitpython_nrf24l01.network.structs import RF24NetworkHeader
     tick = tick_ms * 1_000_000  # constant within a run; enumerated (a symbolic tick makes every time comparison nonlinear)
     clock = fresh_env(ctx, tick_ns=tick)
@@ -35,6 +35,9 @@ def o1_origin(ctx, lx, ld, ack_to, tick_ms, role="net"):
     ctx.assume(d != x)
     if role == "mesh":
         ctx.assume(x != 0o4444)
+    if not multicast:
+        node.allow_multicast = False
+        node.node_address = x  # the documented way to apply the change
     link, outcome = per_packet_link(ctx, radio)
     node.tx_timeout = ctx.int("tx_timeout", 5, 30)
     rt = ctx.int("route_timeout", 5, 40)
@@ -151,6 +154,8 @@ def jobs(tier):
             out.append(Job("O1-origin-waits-and-believes", o1_origin, dict(lx=lx, ld=ld, ack_to="self", tick_ms=tk), cost=50, shards=4))
     for i, (lx, ld) in enumerate(combos[::6] if tier == "quick" else combos[::2]):
         out.append(Job("O1-origin-ignores-foreign-ack", o1_origin, dict(lx=lx, ld=ld, ack_to="other", tick_ms=ticks[i % 3]), cost=50, shards=4))
+        out.append(Job("O1-origin-ignores-foreign-ack", o1_origin, dict(lx=lx, ld=ld, ack_to="other", tick_ms=ticks[i % 3], multicast=False),
+                       cost=50, shards=4))
     if tier == "thorough":
         for lx, ld in ((1, 2), (2, 0), (3, 3)):
             out.append(Job("O1-origin-mesh-node", o1_origin, dict(lx=lx, ld=ld, ack_to="self", tick_ms=3, role="mesh"), cost=50, shards=4))
